@@ -21,23 +21,23 @@ Proof. exact fn_refuses_nonplain_lemma. Qed.
 Print Assumptions fn_refuses_nonplain.
 
 (* The schema accepts the value it was built from ([vwf]: dict keys pairwise distinct, which
-   every Python dict satisfies; [no_nan]: NaN is unequal to itself - known finding F10). *)
+   every Python dict satisfies).  NaN included since the repair of F10. *)
 Theorem fn_accepts :
-  forall v s, vwf v = true -> no_nan v = true -> from_native v = Ok s ->
+  forall v s, vwf v = true -> from_native v = Ok s ->
               wf s = true /\ conforms s v.
 Proof. intros v s. apply fn_accepts_lemma. Qed.
 Print Assumptions fn_accepts.
 
 Theorem fn_accepts_verdict :
-  forall v s, vwf v = true -> no_nan v = true -> from_native v = Ok s -> verdict s v = true.
+  forall v s, vwf v = true -> from_native v = Ok s -> verdict s v = true.
 Proof.
-  intros v s Hw Hn Hs. destruct (fn_accepts_lemma v s Hw Hn Hs) as [Hwf Hc].
+  intros v s Hw Hs. destruct (fn_accepts_lemma v s Hw Hs) as [Hwf Hc].
   apply (verdict_iff_conforms_lemma s Hwf). exact Hc.
 Qed.
 Print Assumptions fn_accepts_verdict.
 
 (* ... and rejects every value that is not the same plain value ([veq]: equal up to
-   True/False ~ 1/0 in int positions and math.isclose on floats; same length, same key
+   True/False ~ 1/0 in int positions and math.isclose on floats, NaN matching NaN; same length, same key
    set, member-wise). No hypothesis on w: tuples, sets, objects, `...` are all rejected. *)
 Theorem fn_rejects_different :
   forall v s w, from_native v = Ok s -> conforms s w -> veq v w.
@@ -59,10 +59,12 @@ Theorem fn_generates_exactly :
 Proof. intros w v s H t. exact (gen_from_native_lemma w v s H t). Qed.
 Print Assumptions fn_generates_exactly.
 
-(* The NaN exclusion is needed: the faithful model rejects NaN against its own schema. *)
-Theorem fn_accepts_refuted_for_nan :
-  exists v s, plain v = true /\ from_native v = Ok s /\ verdict s v = false.
-Proof. exists (VFloat PrimFloat.nan). eexists. repeat split. Qed.
+(* NaN is no longer an exception (F10 repaired): *)
+Example fn_accepts_nan :
+  match from_native (VList [VFloat PrimFloat.nan]) with
+  | Ok s => verdict s (VList [VFloat PrimFloat.nan]) && negb (verdict s (VList [VFloat PrimFloat.one]))
+  | _ => false end = true.
+Proof. vm_compute. reflexivity. Qed.
 
 (* non-vacuity: a nested plain value, its schema, a copy that is accepted and one-step
    perturbations that are rejected *)
@@ -70,7 +72,7 @@ Open Scope N_scope.
 Definition ex_value : value :=
   VDict [ (KStr [97], VList [VInt 1%Z; VBool true; VNone]);
           (KInt 7%Z, VDict [(KNone, VStr [120; 121])]) ].
-Example ex_plain : plain ex_value = true /\ vwf ex_value = true /\ no_nan ex_value = true.
+Example ex_plain : plain ex_value = true /\ vwf ex_value = true.
 Proof. vm_compute. auto. Qed.
 Example ex_accepts_self :
   match from_native ex_value with Ok s => verdict s ex_value | _ => false end = true.
